@@ -56,6 +56,10 @@ def oracle(text):
                     return {'input': inp, 'observed': 'parent of a child of %s is not that group' % type(g).__name__}
                 if g.token_index(c) != i:
                     return {'input': inp, 'observed': 'token_index disagrees with position'}
+                # token_index(token, start): the search starts at `start` (an index or a sibling) and still answers the
+                # position in the whole list
+                if i >= 1 and (g.token_index(c, i // 2) != i or g.token_index(c, g.tokens[i // 2]) != i):
+                    return {'input': inp, 'observed': 'token_index(token, start) disagrees with position (start=%d)' % (i // 2)}
                 if not c.is_child_of(g):
                     return {'input': inp, 'observed': 'is_child_of false for a child'}
                 # token_next / token_prev: nearest non-whitespace sibling
